@@ -73,6 +73,7 @@ type scenario struct {
 	path     string
 	provider sdk.AccAddress
 	other    sdk.AccAddress
+	tenant2  sdk.AccAddress
 	auditor  string
 	group    dtypes.Group
 
@@ -156,6 +157,7 @@ func newScenario(sid int, mode string, tcfg bool) *scenario {
 	owner := addr("tenant", 0)
 	s.provider = addr("provider", 0)
 	s.other = addr("rival", 0)
+	s.tenant2 = addr("tenant", 2)
 	s.auditor = addr("auditor", 0).String()
 	gid := dtypes.GroupID{Owner: owner.String(), DSeq: uint64(1000 + sid), GSeq: 1}
 	s.oid = mtypes.MakeOrderID(gid, 1)
@@ -303,6 +305,18 @@ func (s *scenario) event(k string) pubsub.Event {
 		return mtypes.EventLeaseCreated{ID: mtypes.MakeLeaseID(mtypes.MakeBidID(s.oid, s.provider)), Price: sdk.NewInt64Coin(denom, 1)}
 	case "created":
 		return mtypes.EventOrderCreated{ID: s.oid}
+	case "xowner": // another tenant's order at the same dseq/gseq/oseq, leased to this provider
+		o := s.oid
+		o.Owner = s.tenant2.String()
+		return mtypes.EventLeaseCreated{ID: mtypes.MakeLeaseID(mtypes.MakeBidID(o, s.provider)), Price: sdk.NewInt64Coin(denom, 1)}
+	case "xownerp": // ... leased to another provider
+		o := s.oid
+		o.Owner = s.tenant2.String()
+		return mtypes.EventLeaseCreated{ID: mtypes.MakeLeaseID(mtypes.MakeBidID(o, s.other)), Price: sdk.NewInt64Coin(denom, 1)}
+	case "xdseq": // another deployment of the same tenant, same gseq/oseq, leased to this provider
+		o := s.oid
+		o.DSeq += 500000
+		return mtypes.EventLeaseCreated{ID: mtypes.MakeLeaseID(mtypes.MakeBidID(o, s.provider)), Price: sdk.NewInt64Coin(denom, 1)}
 	case "other":
 		o := s.oid
 		o.GSeq++
